@@ -148,6 +148,11 @@ var trigMap = map[string][2]string{
 	"other":  {"TARIFF_TIME_CHANGE", "DEFERRED_REPORT"},
 }
 
+var rareTriggers = []string{"TAI_CHANGE", "ECGI_CHANGE", "HANDOVER_START", "HANDOVER_COMPLETE", "HANDOVER_CANCEL", "CGI_SAI_CHANGE",
+	"RAI_CHANGE", "VSMF_CHANGE", "GFBR_GUARANTEED_STATUS_CHANGE", "ADDITION_OF_ACCESS", "REMOVAL_OF_ACCESS", "USER_LOCATION_CHANGE",
+	"START_OF_SDF_ADDITIONAL_ACCESS", "REDUNDANT_TRANSMISSION_CHANGE", "TARIFF_TIME_CHANGE", "PLMN_CHANGE", "RAT_CHANGE",
+	"SESSION_AMBR_CHANGE", "UE_TIMEZONE_CHANGE", "ABNORMAL_RELEASE", "QOS_CHANGE", "SERVING_NODE_CHANGE"}
+
 var modeMap = map[string]string{"on": "ONLINE_CHARGING", "off": "OFFLINE_CHARGING", "susp": "QUOTA_MANAGEMENT_SUSPENDED"}
 
 func (d *SeqDriver) emit(v any) {
@@ -355,6 +360,10 @@ func (d *SeqDriver) runOne(b *Behaviour) {
 				var ts []any
 				for _, t := range trig {
 					m := trigMap[t]
+					if t == "rare" {
+						// one of the trigger types an SMF reports less often, in turn
+						m = [2]string{rareTriggers[seq%len(rareTriggers)], "IMMEDIATE_REPORT"}
+					}
 					ts = append(ts, map[string]any{"triggerType": m[0], "triggerCategory": m[1]})
 				}
 				body["triggers"] = ts
